@@ -62,6 +62,8 @@ type chainView struct {
 	OraclePending map[uint64]int64 // pending oracle request id -> GAS reserved for the response
 	// second extension round: meaning of the non-standard witnesses of the cast (nil outside the witness histories)
 	PW *pwExt
+	// third extension round: native Notary (nil outside the pool histories that use it)
+	NV *notaryView
 }
 
 type verdict struct {
@@ -218,6 +220,15 @@ func (cv *chainView) txRules(t *transaction.Transaction) []string {
 	}
 	need := int64(size) * cv.FeePerByte
 	for i := range t.Signers {
+		if cv.NV != nil && t.Signers[i].Account == nativehashes.Notary {
+			ws, cost := cv.NV.witness(cv, t, i)
+			why = append(why, ws...)
+			need += cost
+			if cv.Blocked[t.Signers[i].Account] {
+				why = append(why, "signer blocked by policy")
+			}
+			continue
+		}
 		if cv.PW != nil {
 			if handled, ws, cost := cv.PW.witness(cv, t, i); handled {
 				why = append(why, ws...)
@@ -250,6 +261,8 @@ func (cv *chainView) txRules(t *transaction.Transaction) []string {
 	for _, a := range t.Attributes {
 		if a.Type == transaction.ConflictsT {
 			need += cv.AttrFee[a.Type] * int64(len(t.Signers))
+		} else if a.Type == transaction.NotaryAssistedT && cv.NV != nil {
+			need += cv.AttrFee[a.Type] * (int64(a.Value.(*transaction.NotaryAssisted).NKeys) + 1)
 		} else {
 			need += cv.AttrFee[a.Type]
 		}
@@ -297,7 +310,11 @@ func (cv *chainView) txRules(t *transaction.Transaction) []string {
 		case transaction.OracleResponseT:
 			why = append(why, cv.oracleRules(t, a.Value.(*transaction.OracleResponse))...)
 		case transaction.NotaryAssistedT:
-			why = append(why, "attribute outside the harness alphabet")
+			if cv.NV == nil {
+				why = append(why, "attribute outside the harness alphabet")
+			} else {
+				why = append(why, cv.NV.attrRules(t)...)
+			}
 		default:
 			if a.Type >= transaction.ReservedLowerBound {
 				why = append(why, "attribute of a reserved type")
@@ -329,6 +346,7 @@ func (cv *chainView) judge(b *block.Block) verdict {
 		bw = append(bw, "Merkle root is not the one of the transactions")
 	}
 	spent := map[util.Uint160]int64{}
+	spentDeposit := map[util.Uint160]int64{} // depositor -> fees of the transactions the Notary contract sends on its behalf
 	answered := map[uint64]int{}
 	for _, t := range b.Transactions {
 		for _, a := range t.GetAttributes(transaction.OracleResponseT) {
@@ -352,7 +370,16 @@ func (cv *chainView) judge(b *block.Block) verdict {
 				bw = append(bw, fmt.Sprintf("tx %d: conflicts with another transaction of the block", i))
 			}
 		}
+		if cv.NV != nil && t.Sender() == nativehashes.Notary && len(t.Signers) > 1 {
+			spentDeposit[t.Signers[1].Account] += t.SystemFee + t.NetworkFee
+			continue
+		}
 		spent[t.Sender()] += t.SystemFee + t.NetworkFee
+	}
+	for acc, s := range spentDeposit {
+		if s > cv.NV.Deposit[acc] {
+			bw = append(bw, "Notary deposit does not cover the fees of the depositor's transactions: "+acc.StringLE())
+		}
 	}
 	for acc, s := range spent {
 		bal, known := cv.Balance[acc]
